@@ -615,7 +615,11 @@ pub fn run(args: &Args, r: &mut Report) {
         // a store that, for a while, refuses to write the first-seen record (either of its two entries)
         // a store one of whose commits fails (the writes stay pending and reach the disk with the next commit)
         // (such cases are judged by model_commit_fault only)
-        let commit_fault = rng.chance(1, 8);
+        // (kept off: whether the record survives ONE failing commit depends on how many commits the implementation
+        // happens to make between the install and the reboot — the statement promises durability before the reboot
+        // is attempted, not redundancy against a store that refuses a commit; judging it raised an alarm on the
+        // behaviour-preserving control selftest/benign/c18_finish_time_committed_after_reboot_question)
+        let commit_fault = false && rng.chance(1, 8);
         if commit_fault {
             case.fault.fail_commit_nth = vec![rng.below(14)];
             shape.push("commit-fault".into());
